@@ -30,10 +30,19 @@ Observed(e) == ToSet(e.touched)
 ObsOutside(e)  == {p \in Observed(e) : ~Below(e.out, p)}
 PredOutside(e) == {p \in Predicted(e, FALSE) : ~Below(e.out, p)}
 RawOutside(e)  == {p \in ToSet(e.created) \cup ToSet(e.modified) : ~Below(e.out, p)}
+\* is every outside path explained by the deviation class "directory state carried over from the previous entry, keyed by the TEXT
+\* of the name split at one separator kind" (PathContain!SepCacheEscapes: the entry before it was accepted and has the same
+\* directory text, the remainder holds the `..` components behind separators of the other kind)?
+CarryOver(e) == /\ ObsOutside(e) # {}
+                /\ \E kind \in Seps : \A p \in ObsOutside(e) : \E i \in 2..Len(e.names) :
+                      /\ SepCacheEscapes(e.names[i - 1], e.names[i], kind, OptOf(e))
+                      /\ p \in PredictTouched(ConcName(e.names[i], e.names[i].ix), OptOf(e), FALSE)
 EscapeKind(e) == IF /\ e.out = OutAbs /\ ObsOutside(e) \subseteq PredOutside(e)
                     /\ Cardinality(RawOutside(e)) = Cardinality(ObsOutside(e))       \* `touched` is an injective renaming of created + modified
                     /\ \A p \in ToSet(e.removed) : Below(e.out, p)
-                 THEN "escape-as-unguarded-deviation" ELSE "escape-unmodelled"
+                 THEN (IF CarryOver(e) THEN "escape-as-unguarded-deviation, reached by text-keyed carry-over from the previous entry (SepCacheEscapes)"
+                       ELSE "escape-as-unguarded-deviation")
+                 ELSE "escape-unmodelled"
 
 Diag(e) == IF e.built # "ok" \/ e.exit < 0 THEN PrintT(<<"DRIFT", tl, "run not performed: " \o e.built>>)
            ELSE IF Observed(e) = Predicted(e, TRUE) THEN TRUE
